@@ -5,7 +5,7 @@
 #ifndef MX_SCN_H
 #define MX_SCN_H
 #include "mx.h"
-typedef struct { const char *name; mx_cfg cfg; int resumed; int earlyPriming, earlyResumed, clientEarly; } mx_scn;
+typedef struct { const char *name; mx_cfg cfg; int resumed; int earlyPriming, earlyResumed, clientEarly; int earlySkew; } mx_scn;
 static mx_scn mx_scns[260]; static int mx_nscn;
 static void mx_scn_add(const char *name, int ver, uint16_t suite, int ca, int resumed, int ticket)
 {
@@ -29,6 +29,9 @@ static void mx_scn_build(int thorough)
     /* TLS 1.3 0-RTT: ticket issued with max_early_data, resumed client sends early data; server accepts / has it disabled */
     mx_scn_add("aes128gcm-resumed-early", MX_TLS13, 0x1301, 0, 1, 0); mx_scns[mx_nscn - 1].earlyPriming = 16384; mx_scns[mx_nscn - 1].earlyResumed = 16384; mx_scns[mx_nscn - 1].clientEarly = 100;
     mx_scn_add("aes128gcm-resumed-early-srvoff", MX_TLS13, 0x1301, 0, 1, 0); mx_scns[mx_nscn - 1].earlyPriming = 16384; mx_scns[mx_nscn - 1].earlyResumed = 0; mx_scns[mx_nscn - 1].clientEarly = 100;
+    /* ... and a server with 0-RTT enabled that REJECTS the offered early data (ticket age outside the window: the clock jumps between the
+       client's hello and its arrival), i.e. it skips undecryptable records up to its limit while the handshake goes on */
+    mx_scn_add("aes128gcm-resumed-early-rejected", MX_TLS13, 0x1301, 0, 1, 0); mx_scns[mx_nscn - 1].earlyPriming = 16384; mx_scns[mx_nscn - 1].earlyResumed = 16384; mx_scns[mx_nscn - 1].clientEarly = 100; mx_scns[mx_nscn - 1].earlySkew = 60;
     if (thorough) {
         for (int v = 0; v < MX_NVER; v++) for (int i = 0; i < MX_NSUITES; i++) {
             if (!mx_suite_ok_for(&mx_suites[i], v)) continue;
@@ -85,11 +88,12 @@ static int mx_scn_walk(mx_walk *w, const mx_scn *s, int target, mx_walk_cb cb, v
     }
     mx_cfg rc_ = s->cfg; if (s->resumed) rc_.earlyData = s->earlyResumed;
     if (mx_conn_open(&k, &rc_, sid) != 0) { vf_incon("open failed %s", s->name); return -1; }
+    if (s->earlySkew) mx_now += s->earlySkew;      /* the ClientHello (with its obfuscated ticket age) is already encoded */
     if (s->clientEarly > 0) {
         if (matrixSslGetMaxEarlyData(k.c.ssl) <= 0) vf_incon("client of %s is not early-data capable", s->name);
         else { unsigned char p[1024]; mx_payload(p, s->clientEarly, 0x0e0e, 0, 77);
             /* early data a server with 0-RTT disabled must drop is not part of the stream it may ever deliver */
-            if (mx_send(&k.c, p, s->clientEarly) > 0 && s->earlyResumed > 0) { memcpy(w->sent[0], p, s->clientEarly); w->sentlen[0] = s->clientEarly; } }
+            if (mx_send(&k.c, p, s->clientEarly) > 0 && s->earlyResumed > 0 && !s->earlySkew) { memcpy(w->sent[0], p, s->clientEarly); w->sentlen[0] = s->clientEarly; } }
     }
     mx_walk_cut(w, &k, -1);
     mx_conn_run(&k, mx_walk_cut, w, 300);
